@@ -45,6 +45,16 @@ pub struct C03Case {
 	pub split: u16,
 	/// file removed for the scoping relation
 	pub remove: u16,
+	/// the origin is an existing directory directly below the filesystem root (`/tmp`), as a project at
+	/// `/app` in a container is; nothing is created there: the tree is virtual (the filter never touches the
+	/// probed paths) and the ignore files are stored elsewhere
+	#[serde(default)]
+	pub shallow: bool,
+}
+
+/// An existing directory whose parent is `/` (canonical), if there is one.
+fn shallow_origin() -> Option<PathBuf> {
+	["/tmp", "/dev", "/run", "/usr"].iter().filter_map(|p| std::fs::canonicalize(p).ok()).find(|p| p.is_dir() && p.components().count() == 2)
 }
 
 fn scratch() -> PathBuf {
@@ -65,8 +75,11 @@ struct Built {
 fn materialise(c: &C03Case) -> Built {
 	let tmp = tempfile::Builder::new().prefix("vh-c03-").tempdir_in(scratch()).unwrap();
 	let root = tmp.path().canonicalize().unwrap();
-	let origin = root.join("o");
-	std::fs::create_dir_all(&origin).unwrap();
+	let shallow = if c.shallow { shallow_origin() } else { None };
+	let origin = shallow.clone().unwrap_or_else(|| root.join("o"));
+	std::fs::create_dir_all(root.join("o")).unwrap();
+	let store = root.join("store");
+	std::fs::create_dir_all(&store).unwrap();
 	let gdir = root.join("globals");
 	std::fs::create_dir_all(&gdir).unwrap();
 	let mut files = Vec::new();
@@ -79,8 +92,12 @@ fn materialise(c: &C03Case) -> Built {
 			for comp in &f.dir {
 				d.push(comp);
 			}
-			std::fs::create_dir_all(&d).unwrap();
-			(d.join(format!(".ignore{i}")), Some(d))
+			if shallow.is_some() {
+				(store.join(format!("ignore{i}")), Some(d))
+			} else {
+				std::fs::create_dir_all(&d).unwrap();
+				(d.join(format!(".ignore{i}")), Some(d))
+			}
 		};
 		// the model keeps the plain directory; the implementation is handed the generated spelling of it
 		let spelled = applies_in.as_ref().map(|d| {
@@ -159,6 +176,9 @@ pub fn run(c: &C03Case) -> Outcome {
 	let rt = tokio::runtime::Builder::new_current_thread().enable_all().build().unwrap();
 	let b = materialise(c);
 	let origin = b.origin.clone();
+	if c.shallow && origin.components().count() == 2 {
+		o.label("origin-directly-below-the-root");
+	}
 	let build_new = |files: &[IgnoreFile]| rt.block_on(IgnoreFilter::new(&origin, files));
 	let f0 = match build_new(&b.files) {
 		Ok(f) => f,
@@ -393,7 +413,11 @@ fn strategy() -> BoxedStrategy<C03Case> {
 				any::<u16>(),
 			)
 		})
-		.prop_map(|(files, probes, swaps, split, remove)| C03Case { files, probes, swaps, split, remove })
+		.prop_map(|(files, probes, swaps, split, remove)| {
+			// a sixth of the cases: the origin lies directly below the filesystem root
+			let shallow = (usize::from(split) + usize::from(remove)) % 6 == 0;
+			C03Case { files, probes, swaps, split, remove, shallow }
+		})
 		.boxed()
 }
 
@@ -404,7 +428,7 @@ pub fn check(e: &Engine) {
 		"scoping",
 		LegOpts::det(
 			e.tier.pick(4_000, 80_000),
-			"1-5 ignore files (whose applies_in directory is spelled plainly, with a '.' component, with a 'name/..' detour or with a trailing separator; origin, nested dirs drawn from a 3-name alphabet that half of the time contains the pair test/tests, global) of 1-4 lines from the grammar with 30% negations; 6-23 probes (files and dirs, 15% outside the origin: half of those in a sibling of the origin whose name has the origin's name as a string prefix, half far away); independent nearest-first evaluator (+ git top-down evaluator to delimit the agreed region) and four metamorphic relations; non-trivial = a probe in a prefix-sibling directory of an ignore file's directory, >=2 files on a probe's chain, or a matching negation",
+			"in a sixth of the cases the origin is /tmp itself (a directory directly below the filesystem root; the tree is then virtual and the ignore files are stored elsewhere); 1-5 ignore files (whose applies_in directory is spelled plainly, with a '.' component, with a 'name/..' detour or with a trailing separator; origin, nested dirs drawn from a 3-name alphabet that half of the time contains the pair test/tests, global) of 1-4 lines from the grammar with 30% negations; 6-23 probes (files and dirs, 15% outside the origin: half of those in a sibling of the origin whose name has the origin's name as a string prefix, half far away); independent nearest-first evaluator (+ git top-down evaluator to delimit the agreed region) and four metamorphic relations; non-trivial = a probe in a prefix-sibling directory of an ignore file's directory, >=2 files on a probe's chain, or a matching negation",
 		),
 		&strategy,
 		&run,
